@@ -80,10 +80,10 @@ theorem sendAll_sent (env : Env) (d : Desc) (b : Bundle) : ∀ (ps : List Peer) 
   | [], n, h => by simp [sendAll] at h
   | q :: ps, n, h => by
     simp only [sendAll] at h ⊢
-    by_cases hq : env.sendOk q.addr b.tag (attemptNo n q.addr b.tag) = true
+    by_cases hq : env.sendOk q.addr b.tag (attemptNo n q.addr b.tag b.seq) = true
     · exact ⟨q, by rw [hq]; exact List.mem_cons_self⟩
-    · have hq' : env.sendOk q.addr b.tag (attemptNo n q.addr b.tag) = false := by
-        cases hh : env.sendOk q.addr b.tag (attemptNo n q.addr b.tag) <;> simp_all
+    · have hq' : env.sendOk q.addr b.tag (attemptNo n q.addr b.tag b.seq) = false := by
+        cases hh : env.sendOk q.addr b.tag (attemptNo n q.addr b.tag b.seq) <;> simp_all
       rw [hq'] at h ⊢
       simp only [Bool.false_or] at h
       rcases sendAll_sent env d b ps _ h with ⟨p, hp⟩
